@@ -138,6 +138,8 @@ def py_sel(sel):
         return None
     k = sel[0]
     if k == "i":
+        if sel[2] == 2:
+            return np.array(sel[1])          # a 0-d integer array
         return np.int64(sel[1]) if sel[2] else int(sel[1])
     if k == "s":
         return slice(sel[1], sel[2], sel[3])
